@@ -38,9 +38,11 @@ Definition reveal (w : Z) (y : Z * Z * Z) : Z :=
    TruncateMPC2K { k }, mpc_truncate.rs:186-449, private input (three arguments), k > 0.
    x = (x0,x1,x2) input shares; masks = the six PRF values in the order of the g.prf calls:
    r (:306, key k_2), r0, r_msb0, r_truncated0 (:338 via share_for_two at :345-347, key k_02),
-   y0 (:352, key k_02), y2 (:353, key k_12). *)
-Definition trunc2k (w : Z) (sg : bool) (k : Z) (x : Z * Z * Z) (masks : Z * Z * Z * Z * Z * Z)
-  : Z * Z * Z :=
+   y0 (:352, key k_02), y2 (:353, key k_12).
+   The output shares do not depend on r0, r_msb0, r_truncated0 (they cancel in y1); the messages do,
+   which is why the tie also compares the messages. *)
+Definition trunc2k_full (w : Z) (sg : bool) (k : Z) (x : Z * Z * Z) (masks : Z * Z * Z * Z * Z * Z)
+  : list Z * (Z * Z * Z) :=
   let '(s0, s1, s2) := x in
   let '(r, r0, rm0, rt0, y0, y2) := masks in
   (* :288-301 step 0: signed inputs are shifted by modulus/4 *)
@@ -82,8 +84,15 @@ Definition trunc2k (w : Z) (sg : bool) (k : Z) (x : Z * Z * Z) (masks : Z * Z * 
   (* :432-442 step 14 and 14!: signed: subtract modulus / 2^(k+2) *)
   let sum01 := addw w y_tilde0 y_tilde1 in
   let y1 := if sg then subw w sum01 (2 ^ (w - 2 - k)) else sum01 in
-  (* :445 step 15 *)
-  (y0, y1, y2).
+  (* the seven values sent between parties, in node order (the NOP nodes annotated Send at :342 x3,
+     :367, :369, :424, :428), and :445 step 15: the output sharing *)
+  ([r1; r_msb1; r_truncated1; c_share0; c_share1; y_tilde0; y_tilde1], (y0, y1, y2)).
+
+(* the protocol's output shares / the messages it sends *)
+Definition trunc2k (w : Z) (sg : bool) (k : Z) (x : Z * Z * Z) (masks : Z * Z * Z * Z * Z * Z)
+  : Z * Z * Z := snd (trunc2k_full w sg k x masks).
+Definition trunc2k_msgs (w : Z) (sg : bool) (k : Z) (x : Z * Z * Z) (masks : Z * Z * Z * Z * Z * Z)
+  : list Z := fst (trunc2k_full w sg k x masks).
 
 (* The k for which `instantiate` runs to completion (debug profile: `st_size - 2 - self.k` at :437 and
    `st_size - 1 - self.k` at :384/:412 are u64 subtractions that panic on underflow). *)
@@ -124,5 +133,8 @@ Definition trunc_public (w : Z) (sg : bool) (scale x : Z) : result Z :=
 Definition trunc2k_list (w : Z) (sg : bool) (k : Z)
   (l : list ((Z * Z * Z) * (Z * Z * Z * Z * Z * Z))) : list (Z * Z * Z) :=
   map (fun p => trunc2k w sg k (fst p) (snd p)) l.
+Definition trunc2k_msgs_list (w : Z) (sg : bool) (k : Z)
+  (l : list ((Z * Z * Z) * (Z * Z * Z * Z * Z * Z))) : list (list Z) :=
+  map (fun p => trunc2k_msgs w sg k (fst p) (snd p)) l.
 Definition truncmpc_list (w scale : Z) (l : list ((Z * Z * Z) * Z)) : list (Z * Z * Z) :=
   map (fun p => truncmpc w scale (fst p) (snd p)) l.
